@@ -198,21 +198,6 @@ def run_driver(lines: List[str]) -> List[str]:
 # --------------------------------------------------------------------------------------------
 # cases, correspondence, verdict
 # --------------------------------------------------------------------------------------------
-@dataclass
-class Case:
-    line: str  # protocol line for the model
-    impl: Callable[[], str]  # runs the implementation, returns the canonical string
-    group: str = ""  # generator block (for the histograms)
-    nontrivial: Optional[Callable[[str], bool]] = None  # on the impl output
-
-
-def impl_safe(c: Case) -> str:
-    try:
-        return c.impl()
-    except Exception as e:  # an exception escaping the adapter is an observation, too
-        return "exc=" + exc_name(e)
-
-
 def exc_name(e: BaseException) -> str:
     n = type(e).__name__
     return {"error": "struct.error"}.get(n, n)
@@ -249,26 +234,114 @@ def seed_of() -> int:
         return 0
 
 
-def correspond(res: Result, cases: Iterable[Case], chunk=200000) -> List[Tuple[Case, str, str]]:
-    """Run cases on implementation and model; returns the disagreeing (case, impl, model)."""
-    cases = list(cases)
+class PropCheck:
+    """One property's check.  Subclass and fill in; `run_check` drives it (DESIGN §6)."""
+
+    prop = "C00"
+    rule = ""
+    assumptions: List[str] = []
+    exhaustive = False
+    extra_trusted: List[str] = []
+
+    def impl(self, line: str) -> str:
+        """run one protocol line on the real code, return the canonical result string"""
+        raise NotImplementedError
+
+    def cases(self, res: "Result", tier: str, rng: random.Random) -> List[Tuple[str, str]]:
+        """(line, generator-block) pairs; corpus lines are prepended by run_check"""
+        raise NotImplementedError
+
+    def judge(self, triples: List[Tuple[str, str, Optional[str]]]) -> List["Finding"]:
+        """Evaluate the property's *spec* against the implementation's observed output on these
+        (line, impl_out, model_out-or-None) triples; return concrete violations only.
+        Must not report a case on which the implementation satisfies the property."""
+        raise NotImplementedError
+
+    def search_lines(self, res: "Result", tier: str, rng: random.Random) -> List[str]:
+        """wider input set for the failing-input search (default: the thorough generator)"""
+        return [l for l, _ in self.cases(res, "thorough", rng)]
+
+    def nontrivial(self, line: str, impl_out: str) -> bool:
+        return not impl_out.startswith("exc=")
+
+
+def impl_safe(pc: PropCheck, line: str) -> str:
+    try:
+        return pc.impl(line)
+    except Exception as e:  # an exception escaping the adapter is an observation, too
+        return "exc=" + exc_name(e)
+
+
+def correspond(pc: PropCheck, res: Result, cases: List[Tuple[str, str]], chunk=100000):
+    """Run cases on implementation and model; returns the disagreeing (line, impl, model)."""
     bad = []
     for i in range(0, len(cases), chunk):
         part = cases[i : i + chunk]
-        impl_out = [impl_safe(c) for c in part]
-        model_out = run_driver([c.line for c in part])
-        for c, io, mo in zip(part, impl_out, model_out):
+        impl_out = [impl_safe(pc, l) for l, _ in part]
+        model_out = run_driver([l for l, _ in part])
+        for (l, g), io, mo in zip(part, impl_out, model_out):
             res.evaluations += 1
-            res.groups[c.group] = res.groups.get(c.group, 0) + 1
-            nt = c.nontrivial(io) if c.nontrivial else not io.startswith("exc=")
-            if nt:
-                res.distinct.add(hashlib.blake2b(c.line.encode(), digest_size=8).digest())
+            res.groups[g] = res.groups.get(g, 0) + 1
+            if pc.nontrivial(l, io):
+                res.distinct.add(hashlib.blake2b(l.encode(), digest_size=8).digest())
             if len(res.samples) < 12 and (res.evaluations % 97 == 1 or len(res.samples) < 3):
-                res.samples.append({"case": c.line, "impl": io, "model": mo})
+                res.samples.append({"case": l[:600], "impl": io[:600], "model": mo[:600]})
+            if mo == "bad-op":
+                raise Infra(f"model driver rejected the line: {l[:200]}")
             if io != mo:
-                bad.append((c, io, mo))
-    res.disagreements += [{"case": c.line, "impl": io, "model": mo} for c, io, mo in bad[:50]]
+                bad.append((l, io, mo))
+    res.disagreements += [{"case": l, "impl": io, "model": mo} for l, io, mo in bad[:50]]
     return bad
+
+
+def corpus_lines(prop: str) -> List[Tuple[str, str]]:
+    d = VERIF / "corpus" / prop
+    out = []
+    if d.is_dir():
+        for f in sorted(d.glob("*.txt")):
+            for l in f.read_text().splitlines():
+                l = l.strip()
+                if l and not l.startswith("#"):
+                    out.append((l, "corpus:" + f.stem))
+    return out
+
+
+def run_check(pc: PropCheck, tier: str) -> int:
+    res = Result(pc.prop, tier, seed_of())
+    rng = random.Random(res.seed * 1000003 + 17)
+    a = audit(pc.prop, thorough=(tier == "thorough"))
+    broken = list(a.problems)
+    cases = corpus_lines(pc.prop) + pc.cases(res, tier, rng)
+    bad = correspond(pc, res, cases) if a.build_ok or DRV.exists() else []
+    viol = pc.judge(bad) if bad else []
+    if bad:
+        judged = {v.case for v in viol}
+        broken += [f"correspondence: {l[:300]} :: impl={io[:200]} model={mo[:200]}"
+                   for l, io, mo in bad if l not in judged][:20]
+    if broken and not viol:
+        # failing-input search: the spec against the implementation alone
+        lines = pc.search_lines(res, tier, random.Random(res.seed * 7919 + 3))
+        seen = {l for l, _, _ in bad}
+        triples = [(l, impl_safe(pc, l), None) for l in lines if l not in seen]
+        res.extra["search_inputs"] = len(triples)
+        viol = pc.judge(triples)
+    return finish(res, a, viol, broken, pc.rule, pc.assumptions, pc.exhaustive, pc.extra_trusted)
+
+
+def replay_generic(pc: PropCheck, path: str) -> int:
+    d = json.loads((VERIF / path).read_text() if not os.path.isabs(path) else Path(path).read_text())
+    lines = [d["case"]] if "case" in d else []
+    for l in lines:
+        io = impl_safe(pc, l)
+        mo = run_driver([l])[0]
+        v = pc.judge([(l, io, mo)])
+        print("case :", l)
+        print("impl :", io)
+        print("model:", mo)
+        print("spec :", v[0].what if v else "satisfied")
+    if not lines:
+        print(json.dumps(d, indent=1))
+    return 0
 
 
 def load_known(prop: str) -> Tuple[List[dict], List[str]]:
@@ -346,6 +419,10 @@ def finish(res: Result, a: Audit, judge_violations: List[Finding], broken: List[
     reproduced = set()
     for v in judge_violations:
         k = known_cases.get(v.case)
+        if k is None:
+            for kk in open_known:
+                if kk.get("class") and kk["class"] == v.detail.get("class"):
+                    k = kk
         if k is not None:
             reproduced.add(k["id"])
         else:
